@@ -385,7 +385,7 @@ def e4_cfgs(tier):
     if tier == "quick":
         return [(2, 2, 1, True)]
     return [(2, 2, 1, True), (2, 2, 25, True), (3, 2, 2, True), (3, 2, 25, True), (3, 3, 1, True), (4, 2, 2, False),
-            (4, 3, 2, False), (5, 3, 2, False), (5, 2, 3, False), (6, 2, 25, False), (6, 3, 3, False), (6, 4, 2, False)]
+            (4, 3, 2, False), (5, 3, 2, False), (5, 2, 3, False), (6, 2, 25, False), (6, 2, 3, False), (4, 4, 2, False)]
 
 
 def blocks(tier, seed):
@@ -413,7 +413,7 @@ def run_e4(cfg, ctx):
         if cfg["conform"]:
             r = conform.conform(cfg["n"], cfg["pool"], cfg["max_tasks"], d)
         else:
-            ok, counts, out, dot = conform.run_tlc(cfg["n"], cfg["pool"], cfg["max_tasks"], d)
+            ok, counts, out, dot = conform.run_tlc(cfg["n"], cfg["pool"], cfg["max_tasks"], d, dump=False)
             r = {"tlc_ok": ok, "tlc_generated": counts[0], "tlc_distinct": counts[1], "edges": 0, "paths": 0, "steps": 0,
                  "problems": [] if ok else [("tlc", out[-1500:])], "uncovered": 0}
     ctx.evals += r["paths"] + 1
